@@ -69,11 +69,11 @@ Lemma reach_walk_terminates owners ops g x :
   let gs := rgates owners ops in
   lookup gs g = Some x -> kind_of x <> Transit ->
   (exists p, path_iter gs g = Some (Some p)) /\
-  (forall sender t, buf_send_at gs sender g t <> SOutOfFuel).
+  (forall h sender t, buf_send_at gs h sender g t <> SOutOfFuel).
 Proof.
   intros gs L K. pose proof (reach_inv owners ops) as HI. fold gs in HI. split.
   - eapply path_iter_total; eassumption.
-  - intros sender t. destruct (delivered_once_to_far_owner gs sender g x t HI L K) as [p [_ H]].
+  - intros h sender t. destruct (delivered_once_to_far_owner gs h sender g x t HI L K) as [p [_ H]].
     cbn zeta in H. rewrite H. discriminate.
 Qed.
 
@@ -103,10 +103,11 @@ Proof.
   - unfold q_kind. destruct (lookup (sgates s) g); [|discriminate]. destruct (is_poisoned s g); discriminate.
   - unfold q_next. destruct (lookup (sgates s) g) as [x|]; [|discriminate]. destruct (is_poisoned s g); [discriminate|].
     destruct (kind_of x); discriminate.
-  - unfold q_end. pose proof (q_iter_out s g HI) as H. destruct (q_iter s g) as [| | | |[p|]| | | |]; try discriminate.
+  - unfold q_end. pose proof (q_iter_out s g HI) as H. destruct (q_iter s g) as [| | | |[p|]| | | | |]; try discriminate.
     contradiction H; reflexivity.
   - apply q_iter_out. exact HI.
   - destruct (lookup (sgates s) g); discriminate.
+  - destruct (lookup (sgates s) g); [destruct (lookup (sgates s) g')|]; discriminate.
 Qed.
 
 Lemma exec_snd_cons s o r : snd (exec s (o :: r)) = snd (step s o) :: snd (exec (fst (step s o)) r).
@@ -131,21 +132,21 @@ Lemma reach_mirror owners ops g p :
             map channel q = rev (map channel p).
 Proof. intros gs. apply mirror. apply reach_inv. Qed.
 
-Lemma reach_delivered owners ops sender g x t :
+Lemma reach_delivered owners ops h sender g x t :
   let gs := rgates owners ops in
   lookup gs g = Some x -> kind_of x <> Transit ->
   exists p, path_iter gs g = Some (Some p) /\
     let far := last (map endpoint p) g in
-    buf_send_at gs sender g t =
+    buf_send_at gs h sender g t =
     SDelivered {| d_to := owner_of gs far; d_time := t + path_delay p;
                   d_sender := sender; d_receiver := owner_of gs far; d_last := far |}.
 Proof. intros gs. apply delivered_once_to_far_owner. apply reach_inv. Qed.
 
-Lemma reach_both_directions owners ops sender g p t :
+Lemma reach_both_directions owners ops h sender g p t :
   let gs := rgates owners ops in
   path_iter gs g = Some (Some p) ->
   let far := last (map endpoint p) g in
-  buf_send_at gs sender far t =
+  buf_send_at gs h sender far t =
   SDelivered {| d_to := owner_of gs g; d_time := t + path_delay p;
                 d_sender := sender; d_receiver := owner_of gs g; d_last := g |}.
 Proof. intros gs. apply both_directions. apply reach_inv. Qed.
